@@ -3,6 +3,7 @@ package props
 import (
 	"errors"
 	"fmt"
+	"math/rand/v2"
 	"strings"
 
 	"verifharness/gen"
@@ -136,8 +137,57 @@ var c02Fns = []func() *ref.Expr{
 	func() *ref.Expr { return ref.Fn0("keys") },
 }
 
+// c02AlikeSubtract: `p -= e` on sequences whose scalars are spelled alike but differ in type (1 and "1", true and
+// "true"): every match m gets `m - e`, and `m - e` drops exactly the elements that ARE (by type and value) in e.
+func c02AlikeSubtract(r *rand.Rand) mon.Result {
+	_, doc := c01AlikeCase(r)
+	a, _ := doc.Get("a")
+	b, _ := doc.Get("b")
+	doc.M = append(doc.M, ref.KV{K: "c", V: ref.SeqV(a.Copy(), b.Copy())})
+	res := mon.Result{Tags: []string{"law:compound", "op:-=", "alike_spelled_scalars"}, Nontrivial: true, Evals: 1}
+	rs, err := ref.Eval(ref.Bin("-", ref.Self(), ref.Lit(b)), []*ref.V{a}, ref.Env{T: &ref.Trace{}})
+	if err != nil || len(rs) != 1 {
+		res.Verdict, res.Detail, res.Nontrivial = mon.Held, "outside the modelled domain", false
+		return res
+	}
+	want := doc.Copy()
+	form := r.IntN(4)
+	var expr string
+	switch form {
+	case 0:
+		expr = ".a -= .b"
+		want.M[0].V = rs[0].Copy()
+	case 1:
+		expr = ".a -= " + ref.Lit(b).String()
+		want.M[0].V = rs[0].Copy()
+	case 2:
+		expr = ".b as $r | .a |= . - $r"
+		want.M[0].V = rs[0].Copy()
+	default:
+		// two matches, each gets its own difference
+		expr = ".b as $r | .c[] -= $r"
+		r2, _ := ref.Eval(ref.Bin("-", ref.Self(), ref.Lit(b)), []*ref.V{b}, ref.Env{T: &ref.Trace{}})
+		want.M[2].V = ref.SeqV(rs[0].Copy(), r2[0].Copy())
+	}
+	res.Case = map[string]any{"doc": doc.JSON(), "expr": expr, "law": "compound"}
+	res.Sig = fmt.Sprintf("alike|%d|%x", form, doc.ShapeHash())
+	got, _, yerr := evalDocFmt(expr, doc, "yaml")
+	switch {
+	case yerr != nil:
+		res.Verdict, res.Detail = mon.Violated, fmt.Sprintf("`%s` failed: %v\n doc %s", expr, yerr, doc)
+	case got == nil || !ref.EqualNum(got, want):
+		res.Verdict, res.Detail = mon.Violated, fmt.Sprintf("`%s`\n doc      %s\n expected %s\n observed %s", expr, doc, want, got)
+	default:
+		res.Verdict, res.Detail = mon.Held, "each match got its own difference"
+	}
+	return res
+}
+
 func (p c02) Run(w *mon.Worker, idx int) mon.Result {
 	r := w.Rand(idx)
+	if idx%60 == 33 {
+		return c02AlikeSubtract(r)
+	}
 	pr := gen.Default()
 	pr.NoBigInt, pr.SmallInts = true, true
 	pr.MaxDepth = 2 + r.IntN(3)
